@@ -304,6 +304,23 @@ let handle line =
            print_str (str_of_Z qos @ lit_ (if retain then "|R|" else "|-|")
                       @ (match payload with None -> lit_ "N" | Some p -> lit_ "S" @ p)
                       @ lit_ "|" @ topic))
+  | "MQC" ->
+      (* MQTTClient.connect at a fault position, optionally followed by disconnect and a second connect *)
+      let pre = next_str c in
+      let enter_fails = next_bool c in
+      let faults = next_list c next_bool in
+      let again = next_bool c in
+      let show (s, o) =
+        lit_ (match o with ConnOk -> "ok" | ConnTransportError -> "TE" | ConnRuntimeError -> "RT")
+        @ lit_ (if s.mc_client then "|c1" else "|c0") @ lit_ (if s.mc_task then "|t1|" else "|t0|")
+        @ str_of_Z s.mc_entered @ lit_ "|" @ str_of_Z (Z.of_nat (nat_of_int (List.length s.mc_subs))) in
+      let r1 = mqtt_connect pre enter_fails faults mc_init in
+      if not again then print_str (show r1)
+      else begin
+        let r2 = mqtt_disconnect (fst r1) in
+        let r3 = mqtt_connect pre false [] (fst r2) in
+        print_str (show r1 @ lit_ " ; " @ show r2 @ lit_ " ; " @ show r3)
+      end
   | "MQR" ->
       let topic = next_str c in
       let payload = next_str c in
